@@ -39,13 +39,18 @@ log = logging.getLogger(__name__)
 class ComparisonExpression:
     """An expression to compare to values."""
 
-    def __init__(self, operator: Callable[[Any], bool], value: Any) -> None:
+    def __init__(
+        self, operator: Callable[[Any], bool], value: Any, name: Optional[str] = None
+    ) -> None:
         if not isinstance(value, (int, float)):
             raise ColangValueError(
                 f"Comparison operators don't support values of type '{type(value)}'"
             )
         self.value = value
         self.operator = operator
+        # The name of the function that created the expression (see COMPARISON_OPERATORS),
+        # needed to serialize the expression as part of the state.
+        self.name = name
 
     def compare(self, value: Any) -> bool:
         """Compare given value with the expression's value."""
@@ -263,27 +268,37 @@ def _get_type(val: Any) -> str:
 
 def _less_than_operator(v_ref: Any) -> ComparisonExpression:
     """Create less then comparison expression."""
-    return ComparisonExpression(lambda val, v_ref=v_ref: val < v_ref, v_ref)
+    return ComparisonExpression(lambda val, v_ref=v_ref: val < v_ref, v_ref, "less_than")
 
 
 def _equal_or_less_than_operator(v_ref: Any) -> ComparisonExpression:
     """Create equal or less than comparison expression."""
-    return ComparisonExpression(lambda val, val_ref=v_ref: val <= val_ref, v_ref)
+    return ComparisonExpression(lambda val, val_ref=v_ref: val <= val_ref, v_ref, "equal_less_than")
 
 
 def _greater_than_operator(v_ref: Any) -> ComparisonExpression:
     """Create less then comparison expression."""
-    return ComparisonExpression(lambda val, val_ref=v_ref: val > val_ref, v_ref)
+    return ComparisonExpression(lambda val, val_ref=v_ref: val > val_ref, v_ref, "greater_than")
 
 
 def _equal_or_greater_than_operator(v_ref: Any) -> ComparisonExpression:
     """Create equal or less than comparison expression."""
-    return ComparisonExpression(lambda val, val_ref=v_ref: val >= val_ref, v_ref)
+    return ComparisonExpression(lambda val, val_ref=v_ref: val >= val_ref, v_ref, "equal_greater_than")
 
 
 def _not_equal_to_operator(v_ref: Any) -> ComparisonExpression:
     """Create a not equal comparison expression."""
-    return ComparisonExpression(lambda val, val_ref=v_ref: val != val_ref, v_ref)
+    return ComparisonExpression(lambda val, val_ref=v_ref: val != val_ref, v_ref, "not_equal_to")
+
+
+# The comparison expression constructors by name (as available in expressions)
+COMPARISON_OPERATORS = {
+    "less_than": _less_than_operator,
+    "equal_less_than": _equal_or_less_than_operator,
+    "greater_than": _greater_than_operator,
+    "equal_greater_than": _equal_or_greater_than_operator,
+    "not_equal_to": _not_equal_to_operator,
+}
 
 
 def _flows_info(state: State, flow_instance_uid: Optional[str] = None) -> dict:
